@@ -672,8 +672,24 @@ def gen_trace(df, rnd, tid, embs):
             off = [rnd.choice([0, cur_m["c"][d] * rnd.randrange(-3, 4), rnd.randrange(-2 * cur_m["c"][d], 2 * cur_m["c"][d])]) for d in range(nd)]
             other = {"lo": [cur_m["lo"][d] + off[d] for d in range(nd)], "c": oc, "n": [rnd.randrange(1, 5) for _ in range(nd)]}
             om = lat.mesh_of(df, other, emb, dims=names)
-            ev.append(stamp({"k": "is_aligned", "other": other, "got": bool(mesh.is_aligned(om)), "back": bool(om.is_aligned(mesh))},
+            ev.append(stamp({"k": "is_aligned", "other": other, "stretch": 0, "got": bool(mesh.is_aligned(om)), "back": bool(om.is_aligned(mesh))},
                             coords + mesh_coords(other)))
+            if rnd.random() < 0.5:
+                # the same origin and cell count, many cells, but the upper corner 4e-4 of a cell beyond the lattice (cell sizes
+                # differ by 8e-6 relative): the cells do not agree and the upper faces are off the lattice - not aligned, from
+                # either side (seeded change C14-21 compared the cell sizes loosely and the lower corners only)
+                d = rnd.randrange(nd)
+                big = {"lo": list(cur_m["lo"]), "c": list(cur_m["c"]), "n": [1] * nd}
+                big["n"][d] = 50
+                p1 = [emb.x(big["lo"][j]) for j in range(nd)]
+                p2 = [emb.x(big["lo"][j] + big["c"][j] * big["n"][j]) for j in range(nd)]
+                p2[d] = p2[d] + 4e-4 * emb.length(big["c"][d])
+                try:
+                    sm = df.Mesh(region=df.Region(p1=p1, p2=p2, dims=names), n=tuple(big["n"]))
+                    ev.append(stamp({"k": "is_aligned", "other": big, "stretch": 1, "got": bool(mesh.is_aligned(sm)), "back": bool(sm.is_aligned(mesh))},
+                                    coords + mesh_coords(big)))
+                except Exception:  # noqa: BLE001  (constructing the probe mesh is not the subject here)
+                    pass
         elif cur_s:
             fmt = rnd.choice(["json", "hdf5"])
             tmp = os.path.join(_scratch(), f"c14t-{os.getpid()}-{tid}-{len(ev)}")
